@@ -39,3 +39,8 @@ func (m *PoCMiner) VerifMined(height uint64) bool {
 	_, ok := m.minedHeight[height]
 	return ok
 }
+
+// VerifSubmitBlock waits for the block's timestamp and hands the block to the chain, as generateBlocks does.
+func (m *PoCMiner) VerifSubmitBlock(block *massutil.Block, minerReward massutil.Amount, quit chan struct{}) bool {
+	return m.submitBlock(block, minerReward, quit)
+}
